@@ -620,3 +620,51 @@ Proof.
     own_step R2 (EFrame Unchoke) (Some (RUnchoke_Req 0 1)) (Some 0).
   - split; [eexists; split; vm_compute; reflexivity|]. eexists _, _, _. vm_compute. reflexivity.
 Qed.
+
+(* ---- a tracker answer opens one connection per address, to addresses without an entry only ------------------ *)
+Definition spawned_addrs (sp : list spawn) : list addr := flat_map (fun x => match x with SpPeer a => [a] | _ => [] end) sp.
+
+Lemma spawn_peer_cases m :
+  (snd (spawn_peer m) = [] /\ m_peers (fst (spawn_peer m)) = m_peers m) \/
+  (exists a, snd (spawn_peer m) = [SpPeer a] /\ pget (m_peers m) a = None /\
+             m_peers (fst (spawn_peer m)) = pset (m_peers m) a (new_peer (match rev (m_candidates m) with (_, id) :: _ => Some id | [] => None end)
+                                                                        (length (m_plens m)))).
+Proof.
+  unfold spawn_peer. destruct (rev (m_candidates m)) as [|[a id] rest]; [left; split; reflexivity|].
+  destruct (pget (m_peers m) a) eqn:E; cbn [fst snd m_peers]; [left; split; reflexivity|].
+  right. exists a. repeat split. exact E.
+Qed.
+
+Lemma spawn_n_distinct : forall k m acc,
+  exists new, spawned_addrs (snd (spawn_n k m acc)) = spawned_addrs acc ++ new /\ NoDup new /\
+              (forall a, In a new -> pget (m_peers m) a = None) /\
+              (forall a, pget (m_peers m) a <> None -> pget (m_peers (fst (spawn_n k m acc))) a <> None).
+Proof.
+  induction k as [|k IH]; intros m acc; cbn [spawn_n].
+  - exists []. rewrite app_nil_r. repeat split; [constructor | intros a [] | auto].
+  - destruct (spawn_peer m) as [m1 sp] eqn:E.
+    pose proof (spawn_peer_cases m) as C. rewrite E in C. cbn [fst snd] in C.
+    destruct (IH m1 (acc ++ sp)) as (new & Hs & Hnd & Habs & Hkeep).
+    destruct C as [[-> Hp]|(a & -> & Ha & Hp)].
+    + exists new. rewrite app_nil_r in *. split; [exact Hs|]. split; [exact Hnd|]. rewrite Hp in *. split; assumption.
+    + exists (a :: new). unfold spawned_addrs in Hs |- *. rewrite flat_map_app in Hs. cbn [flat_map app] in Hs. rewrite <- app_assoc in Hs.
+      split; [exact Hs|]. rewrite Hp in *.
+      assert (Hin : ~ In a new).
+      { intros Hi. specialize (Habs a Hi). rewrite pget_pset_same in Habs. discriminate. }
+      split; [constructor; assumption|]. split.
+      * intros b [<-|Hb]; [exact Ha|]. specialize (Habs b Hb).
+        destruct (N.eq_dec a b) as [->|Hn]; [exact Ha | rewrite pget_pset_other in Habs by exact Hn; exact Habs].
+      * intros b Hb. apply Hkeep. destruct (N.eq_dec a b) as [->|Hn]; [rewrite pget_pset_same; discriminate | rewrite pget_pset_other by exact Hn; exact Hb].
+Qed.
+
+(* the addresses a tracker answer connects to are pairwise distinct and had no entry: one task per address *)
+Theorem tracker_resp_one_task_per_address m peers :
+  let sp := spawned_addrs (snd (handle_tracker_resp m peers)) in
+  NoDup sp /\ forall a, In a sp -> pget (m_peers m) a = None.
+Proof.
+  cbv zeta. unfold handle_tracker_resp.
+  destruct (spawn_n_distinct (N.to_nat (MAX_UNCHOKED + MAX_OPTIMISTIC - len (filter (fun kp => p_am_interested (snd kp)) (m_peers m))))
+                             (mkmgr (m_status m) (m_peers m) (m_candidates m ++ peers) (m_round m) (m_extracted m) (m_plens m)) [])
+    as (new & Hs & Hnd & Habs & _).
+  cbn [spawned_addrs flat_map app] in Hs. rewrite Hs. split; [exact Hnd | exact Habs].
+Qed.
